@@ -6,28 +6,45 @@ from __future__ import annotations
 import ast
 
 from ..index import AnalysisError, function_stmts, walk_no_nested
-from ..util import callee_last, calls_in, kw, names_in, txt
-from .c12 import _dict_keys, _returned_dicts
+from ..util import Expander, callee_last, calls_in, kw, names_in, txt
+from .c12 import _dict_keys
 
 EXPLANATION = (
     "Static provenance analysis of pandera/schema_statistics/pandas.py and pandera/schema_inference/pandas.py (ast, "
-    "def-use; nothing executed). (R1) _get_array_check_statistics emits only inclusive bound checks "
-    "(greater_than_or_equal_to / less_than_or_equal_to) whose values are min()/max() of the very array it was given, "
-    "and isin from that array's categories; (R2) in every statistics constructor the nullable flag is `isna().any()` "
-    "of the same object, the dtype is Engine.dtype(x.dtype) of the same object, and the checks are computed from the "
-    "same object with that dtype; (R3) parse_check_statistics maps every statistics key to the Check constructor of "
-    "the same name; (R4) infer_dataframe_schema / infer_series_schema / _create_index forward dtype, checks, nullable "
-    "(and name) from the statistics entry of the same key into the Column / Index / SeriesSchema constructors, and "
-    "coerce=True keeps inferred dtypes reachable. NOT decided: numeric tightness (float rounding of large integers), "
-    "NaT/inf, mixed-object inference, survival through serialisation on data."
+    "def-use expansion of locals; nothing executed). (R1) _get_array_check_statistics emits only inclusive bound checks "
+    "(greater_than_or_equal_to / less_than_or_equal_to) whose values are min()/max() of the very array it was given "
+    "(optionally through float(), the only conversion under which the extreme still satisfies its own bound), isin from "
+    "that array's categories, and nothing for all-null arrays; (R2) in every statistics constructor the nullable flag is "
+    "`isna().any()` of the same object, the dtype is _get_array_type(object) and the checks are computed from the same "
+    "object with that dtype; (R5) the objects the statistics are computed from are lossless views of the frame / series / "
+    "index being inferred (the object, a column, its index, get_level_values(i)) - never a value-set projection such as "
+    ".levels / .unique() / .categories / dropna(), which forgets nulls and multiplicities; (R3) parse_check_statistics "
+    "maps every statistics key to the Check constructor of the same name; (R4) infer_dataframe_schema / "
+    "infer_series_schema / _create_index forward dtype, checks, nullable (and name) from the statistics entry of the same "
+    "key into the Column / Index / SeriesSchema constructors, and coerce=True keeps inferred dtypes reachable. NOT "
+    "decided: numeric tightness (float rounding of large integers), NaT/inf, mixed-object inference, survival through "
+    "serialisation on data."
 )
-LEVEL_RULE = "one obligation per statistics key / constructor keyword"
-FLOORS = {"R1": 6, "R2": 9, "R3": 2, "R4": 10}
+LEVEL_RULE = "one obligation per statistics key / constructor keyword / data view"
+FLOORS = {"R1": 6, "R2": 9, "R3": 2, "R4": 10, "R5": 8}
 
 STATS = "pandera/schema_statistics/pandas.py"
 INFER = "pandera/schema_inference/pandas.py"
 INCLUSIVE = {"greater_than_or_equal_to": "min", "less_than_or_equal_to": "max"}
 STRICT = {"greater_than", "less_than", "in_range", "equal_to", "not_equal_to"}
+LOSSLESS_STEPS = {"[]", "index", "get_level_values()", "to_series()", "to_frame()", "copy()", "loc", "iloc", "columns"}
+
+
+def _returned_dicts(f, ex):
+    """dict literals that may flow into a return value of f"""
+    out = []
+    for s in function_stmts(f):
+        if isinstance(s, ast.Return) and s.value is not None:
+            for e in ex.closure(s.value):
+                for n in ast.walk(e):
+                    if isinstance(n, ast.Dict) and n not in out:
+                        out.append(n)
+    return out
 
 
 def r1_bounds(ctx):
@@ -37,25 +54,30 @@ def r1_bounds(ctx):
         raise AnalysisError("_get_array_check_statistics missing")
     ctx.touched(f)
     arr = f.positional[0]
-    dicts = [s.value for s in function_stmts(f) if isinstance(s, ast.Assign) and isinstance(s.value, ast.Dict)]
-    n_bound = 0
+    ex = Expander(f.node)
+    dicts = _returned_dicts(f, ex)
     for d in dicts:
         keys = _dict_keys(d)
         for k, v in keys.items():
             if k in INCLUSIVE:
-                n_bound += 1
                 agg = INCLUSIVE[k]
-                calls = [c for c in ast.walk(v) if isinstance(c, ast.Call) and isinstance(c.func, ast.Attribute) and c.func.attr in ("min", "max")]
-                ok = len(calls) == 1 and calls[0].func.attr == agg and txt(calls[0].func.value) == arr
+                vv = ex.expand(v)
+                inner = vv
+                while isinstance(inner, ast.Call) and isinstance(inner.func, ast.Name) and inner.func.id == "float" and len(inner.args) == 1:
+                    inner = inner.args[0]
+                ok = isinstance(inner, ast.Call) and isinstance(inner.func, ast.Attribute) and inner.func.attr == agg \
+                    and txt(inner.func.value) == arr and not inner.args
                 ctx.ob("R1", f, f"{k} <- {arr}.{agg}()", ok,
                        "inclusive bound equal to the extreme of the same array" if ok else
-                       f"value `{txt(v)}` is not {arr}.{agg}(): the extreme value of the data would violate (or not be tight against) the inferred bound")
+                       f"value `{txt(vv)}` is not {arr}.{agg}() (optionally as float): the extreme value of the data would violate (or not be tight against) the inferred bound")
             elif k == "isin":
-                ok = any(isinstance(n, ast.Attribute) and n.attr == "tolist" for n in ast.walk(v)) or "categories" in txt(v)
-                src = [s for s in function_stmts(f) if isinstance(s, ast.Assign) and txt(s.targets[0]) == "categories"]
-                from_arr = bool(src) and all(arr in names_in(s.value) and "categories" in txt(s.value) for s in src)
+                cl = ex.closure(v)
+                ok = any("categories" in txt(e) for e in cl)
+                srcs = [e for e in cl if "categories" in txt(e) and not isinstance(e, ast.Name)]
+                roots = [e for e in cl if any(isinstance(a, ast.Attribute) and a.attr == "categories" for a in ast.walk(e))]
+                from_arr = bool(roots) and all(arr in names_in(e) for e in roots if any(isinstance(a, ast.Attribute) and a.attr == "categories" for a in ast.walk(e)))
                 ctx.ob("R1", f, "isin <- categories of the same array", ok and from_arr,
-                       f"categories taken from {arr}" if ok and from_arr else f"isin values are `{txt(v)}`")
+                       f"categories taken from {arr}" if ok and from_arr else f"isin values are `{txt(ex.expand(v))}`")
             else:
                 ctx.ob("R1", f, f"statistics key {k!r}", k not in STRICT,
                        "not a bound check" if k not in STRICT else
@@ -67,20 +89,107 @@ def r1_bounds(ctx):
                 if k not in keys:
                     ctx.ob("R1", f, f"bound statistics contain {k}", False,
                            f"a bound statistics dict lacks the inclusive key {k!r} (keys: {sorted(keys)})")
-    # early exit for all-null arrays
-    ok = any(isinstance(s, ast.If) and "isna().all()" in txt(s.test) and isinstance(s.body[0], ast.Return) for s in f.node.body)
+    # all-null arrays get no value checks: a `return None` reached exactly when <arr>.isna().all()
+    ok = False
+    for s in function_stmts(f):
+        if isinstance(s, ast.If) and any(isinstance(b, ast.Return) and (b.value is None or (isinstance(b.value, ast.Constant) and b.value.value is None)) for b in s.body):
+            t = ex.expand(s.test)
+            ok = ok or txt(t) == f"{arr}.isna().all()" or txt(t) == f"{arr}.isnull().all()"
+        if isinstance(s, ast.Return) and isinstance(s.value, ast.IfExp):
+            t = ex.expand(s.value.test)
+            if txt(t) in (f"{arr}.isna().all()", f"{arr}.isnull().all()") and isinstance(s.value.body, ast.Constant) and s.value.body.value is None:
+                ok = True
     ctx.ob("R1", f, "all-null arrays get no value checks", ok, "returns None when everything is null" if ok else "min()/max() of an all-null array would become NaN bounds")
+
+
+def _stat_dicts(g):
+    return [d for d in walk_no_nested(g.node) if isinstance(d, ast.Dict) and {"dtype", "nullable", "checks"} <= set(_dict_keys(d))]
+
+
+def _comp_env(node, root_fn):
+    """comprehension variables in scope at `node`: name -> (iterable expr, position in a tuple target or None)"""
+    env = {}
+    from ..index import parent
+    p = parent(node)
+    while p is not None and p is not root_fn:
+        if isinstance(p, (ast.ListComp, ast.SetComp, ast.DictComp, ast.GeneratorExp)):
+            for g in p.generators:
+                if isinstance(g.target, ast.Name):
+                    env.setdefault(g.target.id, (g.iter, None))
+                elif isinstance(g.target, ast.Tuple):
+                    for i, t in enumerate(g.target.elts):
+                        if isinstance(t, ast.Name):
+                            env.setdefault(t.id, (g.iter, i))
+        p = parent(p)
+    return env
+
+
+def _steps(e, ex, comp, depth=0):
+    """(root name, [access steps]) of a data expression; comprehension variables and unique locals are resolved."""
+    if depth > 10:
+        return None, ["?"]
+    if isinstance(e, ast.Name):
+        if e.id in comp:
+            it, pos = comp[e.id]
+            if isinstance(it, ast.Call) and callee_last(it) == "items" and pos == 1:
+                # value of a local dict built from keys: resolve the dict's values
+                base = ex.expand(it.func.value)
+                if isinstance(base, ast.DictComp):
+                    return _steps(base.value, ex, _comp_env_of(base), depth + 1)
+            r, st = _steps(it, ex, {k: v for k, v in comp.items() if k != e.id}, depth + 1)
+            return r, st + ["<element>"]
+        if e.id in ex.unique:
+            return _steps(ex.unique[e.id], ex, comp, depth + 1)
+        return e.id, []
+    if isinstance(e, ast.Attribute):
+        r, st = _steps(e.value, ex, comp, depth + 1)
+        return r, st + [e.attr]
+    if isinstance(e, ast.Subscript):
+        r, st = _steps(e.value, ex, comp, depth + 1)
+        return r, st + ["[]"]
+    if isinstance(e, ast.Call) and isinstance(e.func, ast.Attribute):
+        r, st = _steps(e.func.value, ex, comp, depth + 1)
+        return r, st + [e.func.attr + "()"]
+    if isinstance(e, ast.Call) and isinstance(e.func, ast.Name) and e.func.id in ("range", "len", "enumerate"):
+        return "<int>", []
+    return None, [txt(e)[:30]]
+
+
+def _comp_env_of(comp_node):
+    env = {}
+    for g in comp_node.generators:
+        if isinstance(g.target, ast.Name):
+            env[g.target.id] = (g.iter, None)
+        elif isinstance(g.target, ast.Tuple):
+            for i, t in enumerate(g.target.elts):
+                if isinstance(t, ast.Name):
+                    env[t.id] = (g.iter, i)
+    return env
+
+
+def _view_ok(e, g, ex, roots):
+    comp = _comp_env(e, g.node)
+    r, st = _steps(e, ex, comp)
+    lossy = [s for s in st if s not in LOSSLESS_STEPS]
+    # iterating the frame itself yields column labels; <element> of the object is a key, fine when only used as subscript
+    return (r in roots and not lossy), r, st
 
 
 def r2_provenance(ctx):
     m = ctx.ix.module(STATS)
     gat = m.functions.get("_get_array_type")
+    if gat is None:
+        raise AnalysisError("_get_array_type missing")
     ctx.touched(gat)
     x = gat.positional[0]
-    first = [s for s in function_stmts(gat) if isinstance(s, ast.Assign)][0]
-    ok = isinstance(first.value, ast.Call) and txt(first.value.func).endswith("Engine.dtype") and txt(first.value.args[0]) == f"{x}.dtype"
-    ctx.ob("R2", gat, f"dtype <- Engine.dtype({x}.dtype)", ok, "resolved from the array's own dtype" if ok else f"`{txt(first)}`")
-    # each statistics builder: nullable / dtype / checks derive from the same object
+    gx = Expander(gat.node)
+    rets = [s for s in function_stmts(gat) if isinstance(s, ast.Return) and s.value is not None]
+    srcs = []
+    for r in rets:
+        for e in gx.closure(r.value):
+            srcs += [c for c in ast.walk(e) if isinstance(c, ast.Call) and txt(c.func).endswith("Engine.dtype")]
+    ok = any(c.args and txt(c.args[0]) == f"{x}.dtype" for c in srcs)
+    ctx.ob("R2", gat, f"dtype <- Engine.dtype({x}.dtype)", ok, "resolved from the array's own dtype" if ok else "the array's own dtype is not what is resolved")
     for fname in ("infer_dataframe_statistics", "infer_series_statistics", "infer_index_statistics"):
         f = m.functions.get(fname)
         if f is None:
@@ -89,53 +198,110 @@ def r2_provenance(ctx):
         scopes = [f] + list(f.nested.values())
         found = False
         for g in scopes:
-            for d in [n for n in walk_no_nested(g.node) if isinstance(n, ast.Dict)]:
-                keys = _dict_keys(d)
-                if not {"dtype", "nullable", "checks"} <= set(keys):
-                    continue
+            ex = Expander(g.node)
+            roots = set(g.positional) | set(f.positional)
+            for d in _stat_dicts(g):
                 found = True
-                chk = keys["checks"]
-                obj = txt(chk.args[0]) if isinstance(chk, ast.Call) and chk.args else None
+                keys = _dict_keys(d)
+                comp = _comp_env(d, g.node)
+                chk = ex.expand(keys["checks"])
                 ok_c = isinstance(chk, ast.Call) and callee_last(chk) == "_get_array_check_statistics" and len(chk.args) == 2
-                nul = keys["nullable"]
-                nt = txt(nul)
-                # nullable: isna().any() of the same object (directly or via a precomputed frame-level isna().any())
-                ok_n = "isna().any()" in nt and (obj is None or obj in nt)
-                if not ok_n and isinstance(nul, ast.Call) and nul.args and isinstance(nul.args[0], ast.Subscript):
-                    base = txt(nul.args[0].value)
-                    defs = [s for s in function_stmts(g) if isinstance(s, ast.Assign) and txt(s.targets[0]) == base]
-                    ok_n = bool(defs) and "isna().any()" in txt(defs[0].value) and g.positional[0] in names_in(defs[0].value)
+                obj = chk.args[0] if ok_c else None
+                obj_steps = _steps(obj, ex, comp) if obj is not None else None
+                # nullable: bool(<obj>.isna().any()) directly, or <frame>.isna().any()[key] for the column named key
+                nul = ex.expand(keys["nullable"])
+                inner = nul
+                while isinstance(inner, ast.Call) and isinstance(inner.func, ast.Name) and inner.func.id == "bool" and len(inner.args) == 1:
+                    inner = inner.args[0]
+                ok_n = False
+                if isinstance(inner, ast.Call) and callee_last(inner) == "any" and isinstance(inner.func.value, ast.Call) \
+                        and callee_last(inner.func.value) in ("isna", "isnull"):
+                    ok_n = obj_steps is not None and _steps(inner.func.value.func.value, ex, comp) == obj_steps
+                elif isinstance(inner, ast.Subscript):
+                    base = ex.expand(inner.value)
+                    if isinstance(base, ast.Call) and callee_last(base) == "any" and isinstance(base.func.value, ast.Call) \
+                            and callee_last(base.func.value) in ("isna", "isnull"):
+                        fr = _steps(base.func.value.func.value, ex, comp)
+                        ok_n = obj_steps is not None and (fr[0], fr[1] + ["[]"]) == obj_steps
+                # dtype: _get_array_type(<obj>) of the same object, and the same value is handed to the check statistics
                 dt = keys["dtype"]
-                ok_d = True
-                if isinstance(dt, ast.Name):
-                    defs = [s for s in walk_no_nested(g.node) if isinstance(s, ast.Assign) and txt(s.targets[0]) == dt.id]
-                    ok_d = (bool(defs) and any(callee_last(c) == "_get_array_type" for c in calls_in(defs[0]))) or \
-                        any(isinstance(n, ast.DictComp) and any(callee_last(c) == "_get_array_type" for c in calls_in(n)) for n in walk_no_nested(g.node))
-                    # the same dtype is passed to the check statistics
-                    ok_c = ok_c and txt(chk.args[1]) == dt.id
-                ctx.ob("R2", g, f"{fname}: nullable <- isna().any() of the inferred object", ok_n, f"`{nt}`")
-                ctx.ob("R2", g, f"{fname}: dtype <- _get_array_type of the inferred object", ok_d, f"`{txt(dt)}`")
-                ctx.ob("R2", g, f"{fname}: checks <- _get_array_check_statistics(same object, same dtype)", ok_c, f"`{txt(chk)}`")
+                dte = ex.expand(dt)
+                ok_d = False
+                if isinstance(dte, ast.Call) and callee_last(dte) == "_get_array_type" and dte.args:
+                    ok_d = obj_steps is not None and _steps(dte.args[0], ex, comp) == obj_steps
+                elif isinstance(dt, ast.Name) and dt.id in comp:
+                    it, pos = comp[dt.id]
+                    if isinstance(it, ast.Call) and callee_last(it) == "items" and pos == 1:
+                        base = ex.expand(it.func.value)
+                        if isinstance(base, ast.DictComp) and isinstance(base.value, ast.Call) and callee_last(base.value) == "_get_array_type":
+                            s2 = _steps(base.value.args[0], ex, _comp_env_of(base))
+                            ok_d = obj_steps is not None and s2[0] == obj_steps[0] and s2[1] == obj_steps[1]
+                ok_c = ok_c and txt(ex.expand(chk.args[1])) == txt(dte) if ok_c else False
+                ctx.ob("R2", g, f"{fname}: nullable <- isna().any() of the inferred object", ok_n, f"`{txt(nul)[:80]}`")
+                ctx.ob("R2", g, f"{fname}: dtype <- _get_array_type of the inferred object", ok_d, f"`{txt(dte)[:80]}`")
+                ctx.ob("R2", g, f"{fname}: checks <- _get_array_check_statistics(same object, same dtype)", ok_c, f"`{txt(chk)[:80]}`")
         if not found:
             raise AnalysisError(f"{fname}: statistics dict not found")
+
+
+def r5_views(ctx):
+    """Every object the statistics are computed from is a lossless view of the inferred data."""
+    m = ctx.ix.module(STATS)
+    n = 0
+    for fname in ("infer_dataframe_statistics", "infer_series_statistics", "infer_index_statistics"):
+        f = m.functions.get(fname)
+        scopes = [f] + list(f.nested.values())
+        helper_names = set(f.nested) | {"_get_array_type", "_get_array_check_statistics", "infer_index_statistics"}
+        for g in scopes:
+            ex = Expander(g.node)
+            roots = set(g.positional)
+            for c in calls_in(g.node):
+                subject = None
+                if isinstance(c.func, ast.Name) and c.func.id in helper_names and c.args:
+                    subject = c.args[0]
+                elif isinstance(c.func, ast.Attribute) and c.func.attr in ("isna", "isnull", "min", "max") and not c.args:
+                    subject = c.func.value
+                if subject is None:
+                    continue
+                ok, r, st = _view_ok(subject, g, ex, roots)
+                n += 1
+                ctx.ob("R5", g, f"{fname}: `{txt(c)[:60]}` reads a lossless view of `{sorted(roots)[0] if roots else '?'}`", ok,
+                       f"{r}{''.join('.' + s for s in st)}" if ok else
+                       f"the statistics are computed from `{txt(subject)[:60]}` (root {r}, path {st}): a projection such as .levels / .unique() / "
+                       ".categories / dropna() forgets nulls, multiplicities or keeps unused values, so nullable / dtype / bounds describe "
+                       "something other than the data and the inferred schema can reject it", g.loc(c))
+    ctx.stats["data_views"] = n
 
 
 def r3_parse(ctx):
     m = ctx.ix.module(STATS)
     f = m.functions.get("parse_check_statistics")
+    if f is None:
+        raise AnalysisError("parse_check_statistics missing")
     ctx.touched(f)
-    loops = [s for s in function_stmts(f) if isinstance(s, ast.For) and ".items()" in txt(s.iter)]
+    stats_param = f.positional[0]
+    loops = [s for s in function_stmts(f) if isinstance(s, ast.For) and isinstance(s.iter, ast.Call) and callee_last(s.iter) == "items"
+             and txt(s.iter.func.value) == stats_param]
     ok = False
+    appended = False
     for l in loops:
-        key = l.target.elts[0].id if isinstance(l.target, ast.Tuple) else None
+        key = l.target.elts[0].id if isinstance(l.target, ast.Tuple) and isinstance(l.target.elts[0], ast.Name) else None
+        ctor = None
         for s in ast.walk(l):
-            if isinstance(s, ast.Assign) and isinstance(s.value, ast.Call) and callee_last(s.value) == "getattr" \
-                    and txt(s.value.args[0]) == "Check" and txt(s.value.args[1]) == key:
+            if isinstance(s, ast.Call) and callee_last(s) == "getattr" and len(s.args) >= 2 and txt(s.args[0]) == "Check" and txt(s.args[1]) == key:
                 ok = True
+                p = s
+                from ..index import parent
+                st = parent(s)
+                if isinstance(st, ast.Assign) and isinstance(st.targets[0], ast.Name):
+                    ctor = st.targets[0].id
+        for c in calls_in(l):
+            if callee_last(c) == "append" and c.args:
+                a = c.args[0]
+                if (isinstance(a, ast.Call) and ((isinstance(a.func, ast.Name) and a.func.id == ctor) or callee_last(a) == "getattr")) or isinstance(a, ast.Name):
+                    appended = True
     ctx.ob("R3", f, "statistics key k is turned into Check.<k>", ok, "getattr(Check, check_name)" if ok else "key is not mapped to the constructor of the same name")
-    uses = any(callee_last(c) in ("check",) for c in calls_in(f.node))
-    appended = any(callee_last(c) == "append" for c in calls_in(f.node))
-    ctx.ob("R3", f, "every statistics entry yields one check", uses and appended, "constructed and appended" if uses and appended else "entries are dropped")
+    ctx.ob("R3", f, "every statistics entry yields one check", ok and appended, "constructed and appended" if ok and appended else "entries are dropped")
 
 
 def r4_forwarding(ctx):
@@ -148,6 +314,7 @@ def r4_forwarding(ctx):
         if f is None:
             raise AnalysisError(f"{fname} missing")
         ctx.touched(f)
+        ex = Expander(f.node)
         calls = [c for c in calls_in(f.node) if callee_last(c) == ctor]
         if not calls:
             raise AnalysisError(f"{fname}: {ctor}(...) not found")
@@ -157,12 +324,16 @@ def r4_forwarding(ctx):
             given.setdefault("dtype", c.args[0])
         for a in attrs:
             v = given.get(a)
-            t = txt(v) if v is not None else ""
-            ok = v is not None and f'["{a}"]' in t.replace("'", '"')
-            if a == "checks":
-                ok = ok and isinstance(v, ast.Call) and callee_last(v) == "parse_check_statistics"
+            vv = ex.expand(v) if v is not None else None
+            inner = vv
+            if a == "checks" and isinstance(inner, ast.Call) and callee_last(inner) == "parse_check_statistics" and inner.args:
+                inner = ex.expand(inner.args[0])
+                wrapped = True
+            else:
+                wrapped = a != "checks"
+            ok = inner is not None and wrapped and isinstance(inner, ast.Subscript) and isinstance(inner.slice, ast.Constant) and inner.slice.value == a
             ctx.ob("R4", f, f"{fname}: {ctor}({a}=statistics[{a!r}])", ok,
-                   "forwarded unmodified" if ok else (f"{a} is not forwarded" if v is None else f"{a}={t}"), f.loc(c))
+                   "forwarded unmodified" if ok else (f"{a} is not forwarded" if v is None else f"{a}={txt(vv)[:80]}"), f.loc(c))
     for fname in ("infer_dataframe_schema", "infer_series_schema"):
         f = m.functions[fname]
         ok = any(isinstance(kw(c, "coerce"), ast.Constant) and kw(c, "coerce").value is True for c in calls_in(f.node))
@@ -174,4 +345,5 @@ def run(ctx):
     r2_provenance(ctx)
     r3_parse(ctx)
     r4_forwarding(ctx)
+    r5_views(ctx)
     ctx.assume("Series.min()/max()/isna()/cat.categories have their documented meaning")
